@@ -1,6 +1,6 @@
 //go:build verif
 
-package remote
+package remote_test
 
 import (
 	"context"
@@ -8,7 +8,6 @@ import (
 	"fmt"
 	"io"
 	"net/http"
-	"net/url"
 	"strconv"
 	"strings"
 	"sync"
@@ -20,6 +19,7 @@ import (
 	"github.com/containerd/log"
 	"github.com/containerd/stargz-snapshotter/cache"
 	"github.com/containerd/stargz-snapshotter/fs/config"
+	"github.com/containerd/stargz-snapshotter/fs/remote"
 	"github.com/containerd/stargz-snapshotter/fs/source"
 	"github.com/containerd/stargz-snapshotter/internal/verifreg"
 	"github.com/containerd/stargz-snapshotter/internal/verifutil"
@@ -92,6 +92,7 @@ type verifC18Transport struct {
 	needAuth map[string]bool   // host answers 401 unless the authorizer's token is presented
 	log      []verifC18Req
 	mode     verifreg.Mode
+	gen    int    // generation of redirect URLs; URLs of an older generation are expired (403)
 	locPad string // appended to the Location of redirects to the CDN host
 	// gate, when set, is called with the index of the request in the log before it is answered
 	gate func(n int, req *http.Request)
@@ -137,6 +138,9 @@ func (t *verifC18Transport) RoundTrip(req *http.Request) (*http.Response, error)
 		}
 	}
 	set := func(ans string) { t.log[n].ans = ans }
+	if host == t.reg.CDNHost && (a == "pass" || a == "whole") && req.URL.Query().Get("gen") != strconv.Itoa(t.gen) {
+		a = "403" // the redirect URL expired
+	}
 	switch {
 	case a == "pass" || a == "whole":
 		t.mode = verifreg.Multi
@@ -172,7 +176,7 @@ func (t *verifC18Transport) RoundTrip(req *http.Request) (*http.Response, error)
 		return verifC18Resp(req, 307, nil), nil
 	case a == "3o":
 		set("3o")
-		loc := fmt.Sprintf("https://%s/cdn/blobs/%s?tok=%d%s", t.reg.CDNHost, t.dgst, t.reg.CDNToken, t.locPad)
+		loc := fmt.Sprintf("https://%s/cdn/blobs/%s?tok=0&gen=%d%s", t.reg.CDNHost, t.dgst, t.gen, t.locPad)
 		return verifC18Resp(req, 307, http.Header{"Location": []string{loc}}), nil
 	case strings.HasPrefix(a, "3r"):
 		i, _ := strconv.Atoi(a[2:])
@@ -181,6 +185,19 @@ func (t *verifC18Transport) RoundTrip(req *http.Request) (*http.Response, error)
 		return verifC18Resp(req, 302, http.Header{"Location": []string{loc}}), nil
 	}
 	panic("verif: unknown scripted answer " + a)
+}
+
+// expire invalidates every redirect URL handed out so far.
+func (t *verifC18Transport) expire() {
+	t.mu.Lock()
+	t.gen++
+	t.mu.Unlock()
+}
+
+func (t *verifC18Transport) setDef(host, ans string) {
+	t.mu.Lock()
+	t.def[host] = ans
+	t.mu.Unlock()
 }
 
 type verifC18HostCfg struct{ valid, hasHeader bool }
@@ -233,7 +250,7 @@ type verifC18Env struct {
 	refspec reference.Spec
 	desc    ocispec.Descriptor
 	size    int64
-	bl      Blob
+	bl      remote.Blob
 	shape   strings.Builder
 }
 
@@ -333,33 +350,6 @@ func (e *verifC18Env) drain(op string) (answers, reqs string) {
 	return strings.Join(as, ","), strings.Join(rs, ";")
 }
 
-func (e *verifC18Env) state() string {
-	if e.bl == nil {
-		return "none"
-	}
-	fr := e.bl.(*blob).getFetcher().(*httpFetcher)
-	fr.urlMu.Lock()
-	cur, hdr := fr.url, fr.header
-	fr.urlMu.Unlock()
-	bu, err1 := url.Parse(fr.blobURL)
-	cu, err2 := url.Parse(cur)
-	if err1 != nil || err2 != nil {
-		return "unparsable-url"
-	}
-	carried := verifC18Carried(hdr, len(e.cfgs))
-	// ---- the property on the stored state: no configured headers are kept for a URL on another host ----
-	for _, j := range carried {
-		if cu.Host != verifC18HostName(j) {
-			e.out.Fail("stored-header-for-url-on-other-host", fmt.Sprintf("fetcher keeps the headers configured for %q while its URL is on %q", verifC18HostName(j), cu.Host))
-		}
-	}
-	s := 0
-	if fr.isSingleRangeMode() {
-		s = 1
-	}
-	return fmt.Sprintf("b%s,u%s,c%s,s%d", strings.TrimPrefix(e.target(bu.Host), "r"), e.target(cu.Host), verifC18ShowCarried(carried), s)
-}
-
 func (e *verifC18Env) setQueue(q []string) {
 	e.tr.mu.Lock()
 	e.tr.queue = append([]string(nil), q...)
@@ -375,7 +365,7 @@ func verifC18OkErr(err error) string {
 
 func (e *verifC18Env) resolve(q []string) bool {
 	e.setQueue(q)
-	res := NewResolver(config.BlobConfig{ChunkSize: 16, CheckAlways: true, FetchTimeoutSec: 10, ForceSingleRangeMode: e.force}, nil)
+	res := remote.NewResolver(config.BlobConfig{ChunkSize: 16, CheckAlways: true, FetchTimeoutSec: 10, ForceSingleRangeMode: e.force}, nil)
 	bl, err := res.Resolve(context.Background(), e.hosts, e.refspec, e.desc, verifC18NullCache{})
 	if err == nil {
 		e.bl = bl
@@ -396,7 +386,7 @@ func (e *verifC18Env) resolve(q []string) bool {
 	}
 	ans, reqs := e.drain("Resolve")
 	e.out.Emit(fmt.Sprintf("f.new %s %s %s %s", e.azName, f, strings.Join(hs, ","), ans),
-		fmt.Sprintf("%s reqs=%s st=%s", verifC18OkErr(err), reqs, e.state()))
+		fmt.Sprintf("%s reqs=%s", verifC18OkErr(err), reqs))
 	e.out.Count("op-resolve-" + verifC18OkErr(err))
 	e.shape.WriteString("N" + ans + "|")
 	return err == nil
@@ -412,7 +402,7 @@ func (e *verifC18Env) read(q []string, o, n int64, viaCache bool) {
 		e.bl.ReadAt(make([]byte, n), o)
 	}
 	ans, reqs := e.drain(name)
-	e.out.Emit("f.read "+ans, fmt.Sprintf("- reqs=%s st=%s", reqs, e.state()))
+	e.out.Emit("f.read "+ans, fmt.Sprintf("- reqs=%s", reqs))
 	e.out.Count("op-" + name)
 	e.shape.WriteString("R" + ans + "|")
 }
@@ -421,7 +411,7 @@ func (e *verifC18Env) check(q []string) {
 	e.setQueue(q)
 	err := e.bl.Check()
 	ans, reqs := e.drain("Check")
-	e.out.Emit("f.check "+ans, fmt.Sprintf("%s reqs=%s st=%s", verifC18OkErr(err), reqs, e.state()))
+	e.out.Emit("f.check "+ans, fmt.Sprintf("%s reqs=%s", verifC18OkErr(err), reqs))
 	e.out.Count("op-Check")
 	e.shape.WriteString("C" + ans + "|")
 }
@@ -430,7 +420,7 @@ func (e *verifC18Env) refresh(q []string) {
 	e.setQueue(q)
 	err := e.bl.Refresh(context.Background(), e.hosts, e.refspec, e.desc)
 	ans, reqs := e.drain("Refresh")
-	e.out.Emit("f.refresh "+ans, fmt.Sprintf("%s reqs=%s st=%s", verifC18OkErr(err), reqs, e.state()))
+	e.out.Emit("f.refresh "+ans, fmt.Sprintf("%s reqs=%s", verifC18OkErr(err), reqs))
 	e.out.Count("op-Refresh")
 	e.shape.WriteString("X" + ans + "|")
 }
@@ -477,13 +467,13 @@ func TestVerifC18Headers(t *testing.T) {
 		e.tr.def[verifC18HostName(0)] = "3o"
 		if e.resolve(nil) {
 			e.read(nil, 0, 64, false)
-			e.tr.reg.ExpireCDN()
+			e.tr.expire()
 			e.read(nil, 0, 64, false)
-			e.tr.reg.ExpireCDN()
+			e.tr.expire()
 			e.check(nil)
 			e.check(nil)
 			e.refresh(nil)
-			e.tr.reg.ExpireCDN()
+			e.tr.expire()
 			e.tr.def[verifC18HostName(0)] = "pass" // the registry stops redirecting
 			e.read(nil, 5, 5, true)
 			e.read(nil, 0, 64, false)
@@ -620,7 +610,7 @@ func TestVerifC18Headers(t *testing.T) {
 		nops := 3 + rnd.Intn(12)
 		for i := 0; i < nops; i++ {
 			if rnd.Intn(5) == 0 {
-				e.tr.reg.ExpireCDN()
+				e.tr.expire()
 				out.Count("act-expire")
 			}
 			if rnd.Intn(7) == 0 {
@@ -662,7 +652,7 @@ func TestVerifC18Race(t *testing.T) {
 		e.tr.def[verifC18HostName(0)] = "3o"
 		// the redirect target hands out a very long (valid) URL
 		e.tr.locPad = "&pad=" + strings.Repeat("x", pad)
-		res := NewResolver(config.BlobConfig{ChunkSize: 16, CheckAlways: true, FetchTimeoutSec: 60}, nil)
+		res := remote.NewResolver(config.BlobConfig{ChunkSize: 16, CheckAlways: true, FetchTimeoutSec: 60}, nil)
 		bl, err := res.Resolve(context.Background(), e.hosts, e.refspec, e.desc, verifC18NullCache{})
 		if err != nil {
 			t.Fatal(err)
@@ -719,4 +709,80 @@ func TestVerifC18Race(t *testing.T) {
 		bl.Close()
 	}
 	out.Stats["race-hits"] = hits
+}
+
+// TestVerifC18HeadersConc (built with -race): several goroutines read, cache and check ONE blob
+// while the redirect URLs keep expiring and the registry flips between redirecting and serving
+// the blob itself, so fetches, checks and URL refreshes overlap.  The race detector observes any
+// unsynchronised access to the fetcher's url/header pair; the oracle evaluates the confinement
+// predicate on every request that reached the (mutex-protected) transport.
+func TestVerifC18HeadersConc(t *testing.T) {
+	log.SetLevel("error")
+	out := verifutil.OpenOut()
+	defer out.Close()
+	rounds := verifutil.EnvInt("VERIF_N", 6)
+	for round := 0; round < rounds; round++ {
+		cfgs := []verifC18HostCfg{{true, true}}
+		if round%2 == 1 {
+			cfgs = []verifC18HostCfg{{true, true}, {true, true}}
+		}
+		e := verifC18NewEnv(out, cfgs, []string{"absent", "retry"}[round%2], false)
+		e.tr.def[verifC18HostName(0)] = "3o"
+		res := remote.NewResolver(config.BlobConfig{ChunkSize: 16, CheckAlways: true, FetchTimeoutSec: 30}, nil)
+		bl, err := res.Resolve(context.Background(), e.hosts, e.refspec, e.desc, verifC18NullCache{})
+		if err != nil {
+			t.Fatal(err)
+		}
+		e.bl = bl
+		stop := make(chan struct{})
+		var wg, chaos sync.WaitGroup
+		chaos.Add(1)
+		go func() { // the server side changes its mind all the time
+			defer chaos.Done()
+			rnd := verifutil.NewRand(verifutil.Seed()*1000003 + 1804 + uint64(round))
+			for {
+				select {
+				case <-stop:
+					return
+				default:
+				}
+				switch rnd.Intn(4) {
+				case 0, 1:
+					e.tr.expire()
+				case 2:
+					e.tr.setDef(verifC18HostName(0), "pass")
+				default:
+					e.tr.setDef(verifC18HostName(0), "3o")
+				}
+				time.Sleep(time.Duration(rnd.Intn(200)) * time.Microsecond)
+			}
+		}()
+		for g := 0; g < 6; g++ {
+			wg.Add(1)
+			go func(g int) {
+				defer wg.Done()
+				rnd := verifutil.NewRand(verifutil.Seed()*1000003 + 1805 + uint64(round*16+g))
+				for i := 0; i < 120; i++ {
+					o := rnd.Range(0, e.size-1)
+					switch {
+					case g < 3:
+						bl.ReadAt(make([]byte, rnd.Range(1, e.size-o)), o)
+					case g < 4:
+						bl.Cache(o, rnd.Range(1, e.size-o))
+					case g < 5 || i%10 != 0:
+						bl.Check()
+					default:
+						bl.Refresh(context.Background(), e.hosts, e.refspec, e.desc)
+					}
+					out.Count("conc-op")
+				}
+			}(g)
+		}
+		wg.Wait()
+		close(stop)
+		chaos.Wait()
+		e.drain(fmt.Sprintf("concurrent ReadAt/Cache/Check/Refresh (round %d)", round))
+		bl.Close()
+		out.Distinct(fmt.Sprintf("conc-round-%d", round))
+	}
 }
